@@ -73,6 +73,7 @@ def _pack(mode, items):
 class World(object):
     def __init__(self):
         self.env = Environment()
+        self.env.enable_infix_notation = True       # the infix routes u[i:j] / u[i] of the bvp family
         self.m = self.env.formula_manager
 
 
@@ -119,6 +120,10 @@ def construct(W, t):
         if len(rest) == 2 and rest[0] is None:
             return m.BVExtract(kid, end=rest[1])
         return m.BVExtract(kid, *rest)
+    if c == "BVSlice":       # infix route: u[start:stop]
+        return construct(W, t[1])[slice(t[2], t[3])]
+    if c == "BVIndex":       # infix route: u[i]
+        return construct(W, t[1])[t[2]]
     if c in STEPPED or c == "BVRepeat":
         return getattr(m, c)(construct(W, t[1]), *t[2:])
     if c in SHIFTS:
@@ -255,6 +260,11 @@ def norm(t):
         start = rest[0] if len(rest) >= 1 and rest[0] is not None else 0
         end = rest[1] if len(rest) >= 2 else ksort(k)[1] - 1
         return K("extract", k, params=(start, end))
+    if c == "BVSlice":
+        k = norm(t[1])
+        return K("extract", k, params=(0 if t[2] is None else t[2], ksort(k)[1] - 1 if t[3] is None else t[3]))
+    if c == "BVIndex":
+        return K("extract", norm(t[1]), params=(t[2], t[2]))
     if c in STEPPED:
         return K(STEPPED[c], norm(t[1]), params=(t[2],))
     if c == "BVRepeat":
@@ -725,9 +735,12 @@ family("bvp", [
     ("shl1", [("bv", ("BVLShl", u, one)), ("int", ("BVLShl", u, 1))]),
     ("lshr1", [("bv", ("BVLShr", u, one)), ("int", ("BVLShr", u, 1))]),
     ("ashr1", [("bv", ("BVAShr", u, one)), ("int", ("BVAShr", u, 1))]),
-    ("ext01", [("full", ("BVExtract", u, 0, 1)), ("defaults", ("BVExtract", u)), ("start", ("BVExtract", u, 0))]),
-    ("ext00", [("full", ("BVExtract", u, 0, 0)), ("end", ("BVExtract", u, None, 0))]),
-    ("ext11", [("full", ("BVExtract", u, 1, 1)), ("start", ("BVExtract", u, 1))]),
+    ("ext01", [("full", ("BVExtract", u, 0, 1)), ("defaults", ("BVExtract", u)), ("start", ("BVExtract", u, 0)),
+               ("slice", ("BVSlice", u, 0, 1)), ("slice-open", ("BVSlice", u, None, None))]),
+    ("ext00", [("full", ("BVExtract", u, 0, 0)), ("end", ("BVExtract", u, None, 0)),
+               ("slice", ("BVSlice", u, 0, 0)), ("slice-to", ("BVSlice", u, None, 0)), ("index", ("BVIndex", u, 0))]),
+    ("ext11", [("full", ("BVExtract", u, 1, 1)), ("start", ("BVExtract", u, 1)),
+               ("slice-from", ("BVSlice", u, 1, None)), ("index", ("BVIndex", u, 1))]),
     ("rol1", [("rol", ("BVRol", u, 1))]), ("ror1", [("ror", ("BVRor", u, 1))]),
     ("rol0", [("rol", ("BVRol", u, 0))]), ("rol2", [("rol", ("BVRol", u, 2))]),
     ("zext1", [("zext", ("BVZExt", u, 1))]), ("sext1", [("sext", ("BVSExt", u, 1))]),
@@ -1170,6 +1183,11 @@ def _copy_case(X, f, targets):
     nodes_f = all_nodes(f)
     copies = []
     for nm, Y in targets:
+        if nm == "clashing":
+            bad = clash_case(X, f, Y, kf) if any(n.is_symbol() for n in nodes_f.values()) else None
+            if bad:
+                return bad
+            continue
         g, bad = copy_audit(X, Y, f, kf, nodes_f)
         if bad:
             return ("%s" % bad[0], "X->%s: %s" % (nm, bad[1]))
@@ -1183,10 +1201,56 @@ def _copy_case(X, f, targets):
     return None
 
 
+def clash_sort(s):
+    """another sort for the same name; chosen so that polymorphic contexts (=, <=, ite, binders) still type-check"""
+    if s == INT:
+        return REAL
+    if s == REAL:
+        return INT
+    if s == BOOL:
+        return INT
+    if isinstance(s, tuple) and s[0] == "BV":
+        return ("BV", s[1] + 1)
+    if isinstance(s, tuple) and s[0] == "Fun":
+        return ("Fun", clash_sort(s[1]), s[2])
+    if isinstance(s, tuple) and s[0] == "Array":
+        return ("Array", s[1], clash_sort(s[2]))
+    return BOOL
+
+
+def clashing(syms):
+    """a target that already owns every name of `syms` with another type: a faithful copy does not exist"""
+    Y = Environment()
+    for name, sort in syms:
+        Y.formula_manager.Symbol(name, mk_type(Y, clash_sort(sort)))
+    return Y
+
+
+def clash_case(X, f, Y, kf):
+    """normalising into a target whose same-named symbols have other types: refuse, or copy faithfully"""
+    from pysmt.exceptions import PysmtTypeError, PysmtValueError
+    before = dict((n, sort_of(v.symbol_type())) for n, v in Y.formula_manager.symbols.items())
+    try:
+        g = Y.formula_manager.normalize(f)
+    except (PysmtTypeError, PysmtValueError):
+        g = None
+    if g is not None:
+        kg = okey(g, {})
+        if kg != kf:
+            d = kdiff(kf, kg)
+            return ("clash-structure", "X->clashing: a target that owns the same names with other types got the "
+                    "copy %s (differs at %s: %s) instead of a refusal" % (kshort(kg), d[0], d[1]))
+    for n, srt in before.items():
+        v = Y.formula_manager.symbols.get(n)
+        if v is None or sort_of(v.symbol_type()) != srt:
+            return ("clash-redeclared", "X->clashing: the target's own symbol %s changed type" % n)
+    return None
+
+
 def fresh_targets(syms):
     Y1, Y2 = Environment(), Environment()
     prepopulate(Y2, syms)
-    return [("empty", Y1), ("prepopulated", Y2)]
+    return [("empty", Y1), ("prepopulated", Y2), ("clashing", clashing(syms))]
 
 
 def sort_shape(s):
